@@ -43,6 +43,12 @@ func init() {
 	register("cmds", family{gen: func(r *rand.Rand, tier string) *sx.Node {
 		return genRunnerCase(r, cmdCfg, opsCfg{steps: 40, extraAfterEnd: 1})
 	}, run: runRunnerCase})
+	convCfg := flowCfg
+	convCfg.wCmd, convCfg.wStop, convCfg.maxNodes, convCfg.wJump = 9, 1, 3, 3
+	convCfg.cmdNames = []string{"act1", "act2", "act3", "walk"}
+	register("convcmds", family{gen: func(r *rand.Rand, tier string) *sx.Node {
+		return genRunnerCase(r, convCfg, opsCfg{steps: 36, extraAfterEnd: 1, snapshots: true, runners: 1, snapFreq: 5})
+	}, run: runRunnerCase})
 	visitCfg := flowCfg
 	visitCfg.wJump, visitCfg.wStop, visitCfg.visitLines, visitCfg.maxNodes, visitCfg.wCmd = 7, 0, true, 5, 0
 	visitCfg.neverPct = 35
@@ -55,6 +61,7 @@ func init() {
 	renderCfg := flowCfg
 	renderCfg.wLine, renderCfg.wOpts, renderCfg.wSet, renderCfg.wCmd, renderCfg.wStop, renderCfg.wJump, renderCfg.faultPct, renderCfg.exprDepth = 9, 7, 3, 0, 0, 1, 3, 3
 	renderCfg.markupText, renderCfg.replPct = true, 8
+	renderCfg.loopPct = 50
 	register("render", family{gen: func(r *rand.Rand, tier string) *sx.Node {
 		return genRunnerCase(r, renderCfg, opsCfg{steps: 30, extraAfterEnd: 1})
 	}, run: runRunnerCase})
@@ -158,7 +165,11 @@ func genRunnerCase(r *rand.Rand, cfg genCfg, oc opsCfg) *sx.Node {
 	}
 	hcmds := []*sx.Node{}
 	if cfg.hostCmds {
-		for _, n := range hostCommandNames {
+		names := hostCommandNames
+		if cfg.cmdNames != nil {
+			names = cfg.cmdNames
+		}
+		for _, n := range names {
 			hcmds = append(hcmds, sx.Str(n))
 		}
 	}
@@ -186,15 +197,22 @@ func genRunnerCase(r *rand.Rand, cfg genCfg, oc opsCfg) *sx.Node {
 		sx.Tag("readers", readers...),
 		layoutToSx(lay, lseed),
 		sx.Tag("ops"))
-	c.L[10] = sx.Tag("ops", adaptiveOps(r, c, oc)...)
+	ops, voidFail := adaptiveOps(r, c, oc)
+	c.L[10] = sx.Tag("ops", ops...)
+	// a handler of type func(float64) cannot fail: the entries it consumed while the operations were
+	// generated are successes (the implementation behaved exactly so)
+	for _, i := range voidFail {
+		e := c.L[5].L[1+i]
+		c.L[5].L[1+i] = sx.List(e.L[0], sx.Int(0))
+	}
 	return c
 }
 
 // adaptiveOps drives the implementation to produce an operation sequence whose choices are valid.
 // Every operation - snapshots and restores included - is applied to real runners through the same
 // execState.apply the executor uses, so the driver always knows what each runner waits for.
-func adaptiveOps(r *rand.Rand, c *sx.Node, oc opsCfg) []*sx.Node {
-	ops := []*sx.Node{}
+func adaptiveOps(r *rand.Rand, c *sx.Node, oc opsCfg) (ops []*sx.Node, voidFail []int) {
+	ops = []*sx.Node{}
 	storerMode := c.L[2].L[1].Int() != 0
 	hcmds := []string{}
 	for _, n := range c.L[4].Args() {
@@ -206,7 +224,7 @@ func adaptiveOps(r *rand.Rand, c *sx.Node, oc opsCfg) []*sx.Node {
 	for i := 0; i < nr; i++ {
 		h, err := newHostRunner(storerMode, c.L[3].Args(), c.L[1].L[1].Text(), hcmds, append([]*sx.Node{}, c.L[5].Args()...), texts)
 		if err != nil {
-			return ops
+			return ops, nil
 		}
 		st.runners = append(st.runners, h)
 	}
@@ -264,7 +282,12 @@ func adaptiveOps(r *rand.Rand, c *sx.Node, oc opsCfg) []*sx.Node {
 					}
 				}
 				counts := []*sx.Node{}
+				seenName := map[string]bool{}
 				for _, n := range append(append([]string{}, nodeNames...), "Ghost") {
+					if seenName[n] {
+						continue
+					}
+					seenName[n] = true
 					if r.Intn(3) == 0 {
 						counts = append(counts, sx.List(sx.Str(n), sx.Int(int64(r.Intn(4)))))
 					}
@@ -295,7 +318,7 @@ func adaptiveOps(r *rand.Rand, c *sx.Node, oc opsCfg) []*sx.Node {
 			waiting[ri] = 0
 			ended[ri]++
 			if ended[ri] > oc.extraAfterEnd && nr == 1 && !oc.snapshots {
-				return ops
+				return ops, st.runners[0].voidFail
 			}
 		case "wait":
 			// keeps waiting for the same thing
@@ -303,7 +326,7 @@ func adaptiveOps(r *rand.Rand, c *sx.Node, oc opsCfg) []*sx.Node {
 			waiting[ri] = 0
 		}
 	}
-	return ops
+	return ops, st.runners[0].voidFail
 }
 
 func (oc opsCfg) snapEvery() int {
@@ -342,6 +365,17 @@ func genExprCase(r *rand.Rand, tier string) *sx.Node {
 	}
 	body = append(body, sx.Tag("line", sx.List(sx.Tag("t", sx.Str("done"))), sx.List(), sx.List()))
 	nodes := []*sx.Node{sx.Tag("node", sx.List(sx.List(sx.Str("title"), sx.Str("Start"))), sx.List(body...))}
+	if r.Intn(2) == 0 {
+		// the same expression trees evaluated again and again by one runner: Start declares and jumps
+		// to Body, which loops on itself
+		decls, rest := body[:6], body[6:]
+		start := append(append([]*sx.Node{}, decls...), sx.Tag("declare", sx.Str("lc"), numLit(0)), sx.Tag("jump", strLit("Body")))
+		loop := append(append([]*sx.Node{}, rest...),
+			sx.Tag("set", sx.Str("lc"), sx.Str("+="), numLit(1)),
+			sx.Tag("if", sx.Tag("clause", binOp("<", varRef("lc"), numLit(3)), sx.List(sx.Tag("jump", strLit("Body"))))))
+		nodes = []*sx.Node{sx.Tag("node", sx.List(sx.List(sx.Str("title"), sx.Str("Start"))), sx.List(start...)),
+			sx.Tag("node", sx.List(sx.List(sx.Str("title"), sx.Str("Body"))), sx.List(loop...))}
+	}
 	lseed := r.Int63()
 	lay := randomLayout(rand.New(rand.NewSource(lseed)))
 	lay.blankProb = 0
@@ -350,7 +384,7 @@ func genExprCase(r *rand.Rand, tier string) *sx.Node {
 		ops = append(ops, sx.Tag("next", sx.Int(0), sx.Int(0)))
 	}
 	return sx.Tag("runner", seedNode(randomSeed(r), 8), sx.Tag("storer", sx.Bool(false)), sx.Tag("init"), sx.Tag("hcmds"),
-		sx.Tag("sched"), sx.Tag("nrunners", sx.Int(1)), sx.Tag("nodes", sx.List(nodes...)), sx.Tag("readers", sx.Int(1)),
+		sx.Tag("sched"), sx.Tag("nrunners", sx.Int(1)), sx.Tag("nodes", sx.List(nodes...)), sx.Tag("readers", sx.Int(int64(len(nodes)))),
 		layoutToSx(lay, lseed), sx.Tag("ops", ops...))
 }
 
